@@ -62,7 +62,9 @@ pub fn eval(sc: &Scenario) -> CaseResult {
                 }
                 // drift: a leak shows as growth of the second half's maximum over the first half's
                 let (h0, h1) = (get(&bm[0], k), get(&bm[1], k));
-                if h1 > 2 * h0 + 8 && !sc.ops.iter().any(|o| matches!(o, Op::LinkDown { .. } | Op::Profile { .. })) {
+                // (buffers with a hard cap - events, checksum maps, spectator pending - legitimately move between 0 and their cap)
+                let capped = matches!(*k, "events" | "pending_checksums" | "checksum_hist" | "pending_spec" | "send_queue_after_poll");
+                if !capped && h1 > 2 * h0 + 8 && !sc.ops.iter().any(|o| matches!(o, Op::LinkDown { .. } | Op::Profile { .. })) {
                     r.violation = Some((format!("C18.drift|{k}"), format!("{name}: buffer '{k}' maximum grew from {h0} (first half) to {h1} (second half) under a stationary schedule")));
                     break 'outer;
                 }
